@@ -5,7 +5,7 @@ import kdf, dumpgen
 THEOREMS = ["Kdf.Props.C16." + t for t in ("init_inv", "clear_inv", "vadd_chain", "vadd_fits_no_alloc", "vadd_trunc", "vadd_inbounds", "history_inv", "history_chain", "codes_documented", "status_roundtrip", "addrxlat2kdump_documented", "probe_never_noprobe",
     "directReadOk_tolerates", "directReadOk_empty", "pgtroot_story", "pgtroot_disciplined", "mapLinuxPgtroot_disciplined",
     "mapLinuxArm_disciplined", "mapLinuxArm_story", "xenver_disciplined", "xenver_tolerates", "derived_disciplined",
-    "derived_names_cause")]
+    "derived_names_cause", "ctxMalloc_disciplined", "ctxMalloc_fail_message", "ctxMalloc_ok_silent", "s390OsInfoAlloc_story", "s390OsInfoAlloc_disciplined")]
 BUFSZ = [64, 80, 160]          # ERRBUF of addrxlat ctx, bitmap objects, kdump ctx
 
 
@@ -387,10 +387,11 @@ def flow_family(R, rng):
     for path in (p1, p2):
         for n in (rng.sample(range(1, 120), 12) if quick else range(1, 160)):
             L += ["failat %d" % n, "open " + path, "get cpu.0.reg.rip"]
+    from props import c16size; size_exp = c16size.add(R, rng, L, ddesc)       # file-controlled 64-bit sizes that reach an allocation
     rc, out, err = R.run_harness(exe, stdin_text="\n".join(L) + "\n")
     obs = kdf.obs(out)
     calls = [l for l in L if not (l.startswith("M ") or l.startswith("failat "))]
-    fail = None
+    fail = c16size.verdict(L, obs, size_exp, ddesc)
     for i, o in enumerate(obs):
         if " C16:" in o.split(" | ")[0] or "UNDOCUMENTED" in o.split(" | ")[0]:
             j = [k for k, l in enumerate(L) if not (l.startswith("M ") or l.startswith("failat "))][i]
@@ -427,7 +428,7 @@ def flow_family(R, rng):
             want.append((l, o))
         pending = None
         prev = o
-    return fail, L, want, mlines, dict(calls=len(calls), modelled=len(mlines))
+    return fail, L, want, mlines, dict(calls=len(calls), modelled=len(mlines), size_field_cases=len(size_exp))
 
 
 def run(R):
